@@ -254,6 +254,7 @@ class FSpec:
         if setup:
             setup(ex, st, a)
         st0 = st.copy()
+        ex.fn_entry = st0
         alloc0 = st0.alloc_arr()
         st.obl.append({"name": f"{self.qual}/canary:precondition-not-contradictory", "pc": list(st.pc), "goal": z3.BoolVal(False), "kind": "canary", "expect": "fail"})
         ex.fn_stack.append((self.fn.name, self.cls))
@@ -332,7 +333,7 @@ class LoopSpec:
             s1 = s1.copy()
             n, at, ety = ex.iter_view(s1, it)
             entry = s1.copy()
-            ctx = {"i": z3.IntVal(0), "n": n, "entry": entry, "at": at, "iter": it}
+            ctx = {"i": z3.IntVal(0), "n": n, "entry": entry, "at": at, "iter": it, "fn_entry": getattr(ex, "fn_entry", None)}
             s1.labels = s1.labels + [self.name]
             for label, f in self.inv(s1.peek(), ctx):
                 s1.oblige(f"inv-init:{label}", f, "inv-init")
@@ -388,7 +389,7 @@ class LoopSpec:
         out = []
         s1 = st.copy()
         entry = s1.copy()
-        ctx = {"entry": entry}
+        ctx = {"entry": entry, "fn_entry": getattr(ex, "fn_entry", None)}
         s1.labels = s1.labels + [self.name]
         for label, f in self.inv(s1.peek(), ctx):
             s1.oblige(f"inv-init:{label}", f, "inv-init")
